@@ -27,14 +27,17 @@ RULE = ("streams: E1 exhaustive -- every operation sequence of length <= 3 (quic
         "bare, qualified, mis-cased, unknown, external/) on manager 0 of two managers, type 'optimizer' (lookup-only "
         "sequences only up to length 2); E6 exhaustive -- every sequence of length <= 3 over 6 operations x 2 managers "
         "(same name bound to different plug-ins in the two managers); E2 -- every add_plugin sequence of length <= 2 "
-        "(<= 3 thorough) over 12 registrations (stubs incl. a case-sensitive one and one shadowing the built-in methods, "
-        "fresh instances of the real scipy/external plug-ins, duplicates of built-in names, empty name) followed by a "
-        "probe block (plugins(), get_plugin and is_supported of 12 requests), plus sampled longer ones; E3 -- sampled "
-        "sequences of length 3..12 over all six plug-in types and one to three managers with names and plug-ins "
-        "decoupled and objects re-used; E4 -- for every type every built-in method name (and unknown ones) in three "
-        "casings, bare, qualified and through external/, incl. the external optimizer's constructor; E7 -- rejected "
-        "registration in the middle of a sequence followed by the full probe block.  Non-trivial = the sequence contains "
-        "a successful add_plugin and a later lookup, or probes the built-in tables; distinct = distinct case.")
+        "(<= 3 thorough) over 13 registrations (stubs incl. a case-sensitive one and one shadowing the built-in methods, "
+        "fresh instances of the real scipy/external plug-ins, the shared entry-point object under a second name, "
+        "duplicates of built-in names, empty name) followed by a probe block (plugins(), get_plugin and is_supported of 12 "
+        "requests), plus sampled longer ones; E3/E5 -- sampled sequences of length 3..12 over all six plug-in types and "
+        "one to three managers with names and plug-ins decoupled and objects re-used; E4 -- for every type every built-in "
+        "method name (and unknown ones) in three casings, bare, qualified and through external/, incl. the external "
+        "optimizer's constructor; E7 -- a rejected registration in the middle of a sequence followed by the probe block; "
+        "E8 -- the same request (or listing) before and after each of 8 registrations, on the same and on a second "
+        "manager, for every type; corpus -- the inputs of 5 seeded and 8 own regressions.  The cases are shuffled (seeded) "
+        "over the shards.  Non-trivial = the sequence contains a successful add_plugin and a later lookup, or probes the "
+        "built-in tables; distinct = distinct case.")
 ASSUMPTIONS = [
     "a stub plug-in's is_supported is a table lookup (lower-cased, or verbatim for the case-sensitive stub) and its allows_discovery a constant (the stubs are written that way)",
     "the entry-point set of a fresh PluginManager (names, order, per type) is an input of each case; the built-in plug-ins' method tables are the generated ones",
@@ -69,7 +72,7 @@ MAX_OPS = 45                            # ids: built-in instances 50+op index, s
 # ---- request pools ------------------------------------------------------------------------------------------
 COMMON = ["a", "A", "b", "B", "zzz", "", "A/a", "a/A", "b/B", "B/b", "n/b", "N/B", "A/zzz", "zz/a", "a/", "/a", "/",
           "a//a", "c/x/Y", "C/x/y", "c/B", "c/b", "c/a", "x/Y", "d/default", "D/a", "default", "s2/slsqp", "x/slsqp",
-          "x/a", "X/scipy/SLSQP"]
+          "x/a", "X/scipy/SLSQP", "sp/slsqp", "SP/default"]
 TYPE_POOL = [
     ["slsqp", "SLSQP", "scipy/SLSQP", "SciPy/default", "scipy/a", "n/slsqp", "external/slsqp", "External/scipy/slsqp",
      "external/a", "external/A/a", "external/external/slsqp", "external/n/b", "external/", "external//slsqp",
@@ -102,8 +105,9 @@ E6_OPS = [["add", "A", ["stub", "A"], False], ["add", "a", ["stub", "B"], True],
 E2_ADDS = [["add", "A", ["stub", "A"], False], ["add", "a", ["stub", "B"], True], ["add", "B", ["stub", "B"], False],
            ["add", "N", ["stub", "N"], True], ["add", "c", ["stub", "C"], False], ["add", "d", ["stub", "D"], True],
            ["add", "D", ["stub", "D"], False], ["add", "SciPy", ["stub", "A"], True], ["add", "EXTERNAL", ["stub", "D"], False],
-           ["add", "s2", ["builtin", 1], True], ["add", "X", ["builtin", 0], False], ["add", "", ["stub", "B"], False]]
-ADD_NAMES = ["A", "a", "B", "N", "c", "C", "d", "D", "scipy", "SciPy", "default", "Default", "EXTERNAL", "", "x/y", "s2", "X"]
+           ["add", "s2", ["builtin", 1], True], ["add", "X", ["builtin", 0], False], ["add", "", ["stub", "B"], False],
+           ["add", "sp", ["alias", 1], True]]
+ADD_NAMES = ["A", "a", "B", "N", "c", "C", "d", "D", "scipy", "SciPy", "default", "Default", "EXTERNAL", "", "x/y", "s2", "X", "sp"]
 
 
 def _seqs(alphabet, n):
@@ -129,8 +133,10 @@ def _rand_add(rng, t, n_prev_adds):
     r = rng.random()
     if r < 0.62:
         plug = ["stub", rng.choice("ABNCD")]
-    elif r < 0.80:
+    elif r < 0.76:
         plug = ["builtin", rng.choice([TYPE_K[t], TYPE_K[t], 0 if t == 0 else TYPE_K[t]])]
+    elif r < 0.80:
+        plug = ["alias", TYPE_K[t]]     # the shared entry-point object itself, under a second name
     elif n_prev_adds:
         plug = ["reuse", rng.choice(n_prev_adds)]
     else:
@@ -221,7 +227,7 @@ E8_ADD = [["add", "a", ["stub", "B"], True], ["add", "A", ["stub", "A"], False],
 def _gen_stale(quick, rng):
     """the same request (or listing) before and after a registration on the same manager, and on a second manager:
     anything remembered from the first answer shows in the second"""
-    kinds = [("get", "get"), ("sup", "get"), ("list", "list")] + ([] if quick else [("sup", "sup"), ("get", "sup")])
+    kinds = [("get", "get"), ("sup", "get"), ("sup", "sup"), ("list", "list")] + ([] if quick else [("get", "sup")])
     for m in E8_REQ:
         for pre in E8_PRE:
             for add in E8_ADD:
@@ -233,6 +239,21 @@ def _gen_stale(quick, rng):
                     other = rng.choice([0, 1])
                     ops = [[0, 0, o] for o in pre] + [[0, 0, o1], [other, 0, add], [0, 0, o2], [1, 0, o2]]
                     yield _mk("E8-stale", 2, ops)
+
+
+def _gen_stale_types():
+    """the same pattern for the other five plug-in types"""
+    for t in range(1, 6):
+        meth = TYPE_POOL[t][0]
+        plug = "scipy" if t < 2 else "default"
+        for m in (meth, "default", "D/" + meth, plug + "/" + meth.upper()):
+            for pre in ([], [["add", "d", ["stub", "D"], False]]):
+                for add in E8_ADD:
+                    if add[2] == ["builtin", 1]:
+                        add = ["add", "s2", ["builtin", TYPE_K[t]], True]
+                    for k in ("get", "sup"):
+                        ops = [[0, t, o] for o in pre] + [[0, t, [k, m]], [(t + len(m)) % 2, t, add], [0, t, [k, m]], [1, t, [k, m]]]
+                        yield _mk("E8-stale", 2, ops)
 
 
 # A plug-in object that is falsy (defines __len__/__bool__) is skipped by `if plugin and ...` in get_plugin: it can be
@@ -275,6 +296,7 @@ def _gen_streams(tier, rng):
     yield from _gen_rejected(rng, 300 if quick else 5000)
     # E8
     yield from _gen_stale(quick, rng)
+    yield from _gen_stale_types()
     if FALSY_STREAM:
         for m in ("z/a", "a", "Z/A"):
             yield _mk("E9-falsy", 1, [[0, 0, ["add", "z", ["stub", "Z"], False]], [0, 0, ["get", m]], [0, 0, ["sup", m]]])
@@ -332,7 +354,7 @@ def _fwd(method):
     return ["ok"]
 
 
-def run_impl(case):
+def _run(case):
     from ropt.exceptions import ConfigError
     from ropt.plugins import PluginManager
     if len(case["ops"]) > MAX_OPS:
@@ -362,11 +384,15 @@ def run_impl(case):
                 elif spec[0] == "stub":
                     pid = 100 + idx
                     obj = _make_stub(t, spec[1], pid)
+                elif spec[0] == "alias":
+                    pid = spec[1]
+                    obj = classes[spec[1]]
                 else:
                     pid = 50 + idx
                     obj = type(classes[spec[1]])()
                 made[idx] = (obj, pid)
-                ids[id(obj)] = pid
+                if spec[0] != "alias":
+                    ids[id(obj)] = pid
                 keep.append(obj)
                 del _LOG[:]
                 pm.add_plugin(t, op[1], obj, prioritize=bool(op[3]))
@@ -396,6 +422,72 @@ def run_impl(case):
     return {"init": init, "answers": answers, "consult": consult, "final": final, "fresh_after": after, "says": says}
 
 
+# Process-wide state (class attributes, module-level caches) makes an answer depend on what OTHER cases did earlier in
+# the same worker process.  So that every reported input reproduces on its own: the first case of each clause that a
+# worker sees failing is run again in a fresh interpreter; if it fails there too, that observation is used; if it does
+# not, the failure needs the history, and the observation carries the cases the worker ran before (the runner's shrink
+# step then builds a composite case `history + ops`, which is always run in a fresh interpreter).
+_HISTORY: list = []
+_RERUN_DONE: set = set()
+_HIST: dict = {}
+HISTORY_KEEP = 40
+PROCESS_CLAUSE = "isolation: process-wide state (the answers depend on what other managers did earlier in this process)"
+
+_CHILD = """
+import json, sys
+sys.path.insert(0, %r)
+from common import use_repo_sources
+use_repo_sources()
+import importlib
+m = importlib.import_module("props.C19")
+case = json.load(sys.stdin)
+for h in case.get("history") or []:
+    try:
+        m._run(h)
+    except BaseException:
+        pass
+print("\\n@@OBS@@" + json.dumps(m._run(case)))
+"""
+
+
+def _pristine(case):
+    import json
+    import os
+    import subprocess
+    import sys
+    here = os.path.dirname(os.path.dirname(os.path.abspath(__file__)))
+    p = subprocess.run([sys.executable, "-c", _CHILD % here], input=json.dumps(case), capture_output=True, text=True,
+                       timeout=300)
+    if "@@OBS@@" not in p.stdout:
+        raise RuntimeError("fresh-interpreter run failed: " + (p.stderr or p.stdout)[-400:])
+    return json.loads(p.stdout.split("@@OBS@@", 1)[1])
+
+
+def _key(case):
+    import json
+    return json.dumps([case["managers"], case["ops"]], sort_keys=True)
+
+
+def run_impl(case):
+    if case.get("history") is not None:
+        return _pristine(case)
+    obs = _run(case)
+    hist = list(_HISTORY[-HISTORY_KEEP:])
+    _HISTORY.append({"managers": case["managers"], "ops": case["ops"]})
+    try:
+        v = _oracle(case, obs)
+    except Exception:  # noqa: BLE001
+        v = None
+    if v is not None and v["clause"] not in _RERUN_DONE:
+        _RERUN_DONE.add(v["clause"])
+        obs2 = _pristine(case)
+        if _oracle(case, obs2) is not None:
+            return obs2
+        obs["history_dependent"] = True
+        obs["history"] = hist
+    return obs
+
+
 # ---- Gallina printing -----------------------------------------------------------------------------------------
 # Elaborating string / number literals dominates the cost of a shard, so every string of the pools and every id is
 # defined once in the shard header and the cases refer to them by name (anything else is printed as a literal).
@@ -407,7 +499,7 @@ def _all_strings():
         out |= set(ms)
     for op in ADD_COUPLED + E1_LOOKUPS + E6_OPS + E2_ADDS:
         out.add(op[1])
-    for c in _gen_tables():
+    for c in itertools.chain(_gen_tables(), _gen_stale_types()):
         out |= {op[1] for _, _, op in c["ops"] if len(op) > 1}
     names = set(ADD_NAMES) | {n for reg in STD_INIT for n, _ in reg}
     for n in names:
@@ -447,6 +539,8 @@ def _resolve(ops, idx):
     spec = ops[idx][2][2]
     if spec[0] == "reuse":
         return _resolve(ops, spec[1])
+    if spec[0] == "alias":
+        return ["builtin", spec[1]], spec[1]
     return spec, (100 if spec[0] == "stub" else 50) + idx
 
 
@@ -554,6 +648,15 @@ class _Ref:
 
 def oracle(case, obs):
     """The property's own clauses evaluated on the implementation's answers (no model)."""
+    v = _oracle(case, obs)
+    if v is not None and obs.get("history_dependent"):
+        _HIST[_key(case)] = obs.get("history") or []
+    if v is not None and (obs.get("history_dependent") or case.get("history")):
+        return {"clause": PROCESS_CLAUSE, "detail": {"underlying": v, "history_cases": len(case.get("history") or obs.get("history") or [])}}
+    return v
+
+
+def _oracle(case, obs):
     ref = _Ref(case, obs)
     std = [[[n, k] for n, k in reg] for reg in ref.init]
     if obs["fresh_after"] != std:
@@ -668,7 +771,7 @@ def features(case, obs):
     f["has_list"] = any(op[0] == "list" for _, _, op in ops)
     f["has_case_sensitive_stub"] = any(op[0] == "add" and op[2] == ["stub", "C"] for _, _, op in ops)
     f["has_builtin_instance"] = any(op[0] == "add" and op[2][0] == "builtin" for _, _, op in ops)
-    f["has_reused_object"] = any(op[0] == "add" and op[2][0] == "reuse" for _, _, op in ops)
+    f["has_reused_object"] = any(op[0] == "add" and op[2][0] in ("reuse", "alias") for _, _, op in ops)
     rej = [(op, a) for (_, _, op), a in zip(ops, obs["answers"]) if op[0] == "add" and a == ["err"]]
     f["rejected_adds"] = min(3, len(rej))
     f["rejected_prioritised"] = any(op[3] for op, _ in rej)
@@ -702,6 +805,20 @@ def _drop(case, k):
 
 
 def shrink(case):
+    hist = case.get("history")
+    if hist is None and _key(case) in _HIST:
+        # fails only after what this worker process ran before: make that history part of the input
+        yield {**case, "history": _HIST[_key(case)]}
+        return
+    if hist is not None:
+        n, k = len(hist), 1
+        while k < n:
+            yield {**case, "history": hist[-k:]}
+            k *= 2
+        if 1 < n <= 6:
+            for j in range(n):
+                yield {**case, "history": hist[:j] + hist[j + 1:]}
+        return
     for k in range(len(case["ops"])):
         c = _drop(case, k)
         if c is not None:
